@@ -73,3 +73,9 @@ def d47_fused_parquet_changes_partition_count(case, rec):
     """C11: parquet source whose optimized plan has another partition count (IO fusion) - selections / to_delayed / head refer to the fused partitioning."""
     return bool(rec.get("optimize_changes_partition_count")) and str(rec.get("source", "")).startswith("read_parquet") and rec.get("kind") in (
         "selection-npartitions", "to_delayed-length", "head-differs", "tail-differs", "selection-differs", "to_delayed-differs", "selection-raises", "selection-divisions")
+
+
+def d50_fsspec_userfilter_divisions_keyerror(case, rec):
+    """C18: fsspec reader + calculate_divisions + user filters= -> KeyError 'name' from dask's sorted_columns."""
+    return (rec.get("kind") in ("query-raises", "read-raises") and rec.get("reader") == "fsspec" and rec.get("exc_type") == "KeyError"
+            and "'name'" in str(rec.get("exc_msg", "")) and bool(case.get("calc_div")) and "user filters" in str(rec.get("detail", "")))
